@@ -37,6 +37,7 @@ Qed.
 Section Cells.
 Variable cf : cfg.
 Variable parents : list (option nat).
+Variable contained : bool.
 Variable mc : machine.
 Variable children : list (option child_ops).
 
@@ -105,9 +106,9 @@ Qed.
    order; k < length only if the k-th returned a consumed code (handled or deferred); every earlier one did not *)
 Lemma run_cell_prefix fuel r s ev l rn g c rn' g' :
   c_fct cf = false ->
-  run_cell cf mc children fuel r s ev l rn g = (Some c, rn', g') ->
+  run_cell cf contained mc children fuel r s ev l rn g = (Some c, rn', g') ->
   exists cs,
-    exec_first (exec_item cf mc children fuel r s ev) (length cs) l rn g = (Some tt, rn', g') /\
+    exec_first (exec_item cf contained mc children fuel r s ev) (length cs) l rn g = (Some tt, rn', g') /\
     length cs <= length l /\
     (Forall (fun x => x < 8) cs ->
        (length cs < length l -> exists cs0 c0, cs = cs0 ++ [c0] /\ consumed c0 = true /\ Forall (fun x => consumed x = false) cs0) /\
@@ -115,14 +116,14 @@ Lemma run_cell_prefix fuel r s ev l rn g c rn' g' :
 Proof.
   intros Hfct H. unfold run_cell in H. rewrite Hfct in H.
   assert (Hgen : forall l0 rn0 g0 c0 rn1 g1,
-            chain_row cf mc children fuel r s ev l0 rn0 g0 = (Some c0, rn1, g1) ->
-            exists cs, run_until (exec_item cf mc children fuel r s ev)
+            chain_row cf contained mc children fuel r s ev l0 rn0 g0 = (Some c0, rn1, g1) ->
+            exists cs, run_until (exec_item cf contained mc children fuel r s ev)
                                  (fun c => negb (chain_continue cf c)) l0 rn0 g0 = (Some cs, rn1, g1)).
   { intros l0 rn0 g0 c0 rn1 g1 Hc. unfold chain_row in Hc. rewrite chain_gen_run_until in Hc. unfold bind in Hc.
     destruct (run_until _ _ l0 rn0 g0) as [[[cs|] rn2] g2] eqn:E; [|discriminate]. inversion Hc; subst. eauto. }
   assert (Hfin : forall l0 rn0 g0 cs rn1 g1,
-            run_until (exec_item cf mc children fuel r s ev) (fun c => negb (chain_continue cf c)) l0 rn0 g0 = (Some cs, rn1, g1) ->
-            exec_first (exec_item cf mc children fuel r s ev) (length cs) l0 rn0 g0 = (Some tt, rn1, g1) /\
+            run_until (exec_item cf contained mc children fuel r s ev) (fun c => negb (chain_continue cf c)) l0 rn0 g0 = (Some cs, rn1, g1) ->
+            exec_first (exec_item cf contained mc children fuel r s ev) (length cs) l0 rn0 g0 = (Some tt, rn1, g1) /\
             length cs <= length l0 /\
             (Forall (fun x => x < 8) cs ->
               (length cs < length l0 -> exists cs0 c0, cs = cs0 ++ [c0] /\ consumed c0 = true /\ Forall (fun x => consumed x = false) cs0) /\
@@ -154,9 +155,9 @@ Qed.
 (* favor_compile_time: the loop form; the items that run are the first k, and the loop is cut short only when the
    accumulated code is consumed *)
 Lemma fct_chain_prefix fuel r s ev acc l rn g c rn' g' :
-  fct_chain cf mc children fuel r s ev acc l rn g = (Some c, rn', g') ->
+  fct_chain cf contained mc children fuel r s ev acc l rn g = (Some c, rn', g') ->
   exists cs,
-    exec_first (exec_item cf mc children fuel r s ev) (length cs) l rn g = (Some tt, rn', g') /\
+    exec_first (exec_item cf contained mc children fuel r s ev) (length cs) l rn g = (Some tt, rn', g') /\
     length cs <= length l /\
     c = loop_codes (tab1 fct_chain_continue) (tab2 fct_chain_step) acc cs /\
     (length cs < length l -> c < 8 -> consumed c = true).
